@@ -84,12 +84,12 @@ def prepare(theorems, log=print):
         t0 = time.time()
         rc, out = sh(['/venv/bin/python', os.path.join(VERIF, 'tools', 'extract.py'), '--repo', REPO])
         prep.times['extract'] = time.time() - t0
-        if rc != 0:
-            prep.extract = {'error': out[-2000:]}
-            log('extract failed:\n' + out[-1500:])
-        else:
-            try: prep.extract = json.loads(out.strip().splitlines()[-1])
-            except Exception: prep.extract = {'raw': out[-500:]}
+        try: prep.extract = json.loads(out.strip().splitlines()[-1])
+        except Exception: prep.extract = {'raw': out[-500:]}
+        if rc != 0 and not isinstance(prep.extract.get('failed'), dict):
+            prep.extract = {'failed': {'Tables': out[-1500:], 'Kinds': out[-1500:], 'Effects': out[-1500:]}}
+        if prep.extract.get('failed'):
+            log('extract failed for %s' % sorted(prep.extract['failed']))
         t0 = time.time()
         rc1, out1 = sh(['lake', 'build', 'driver'], cwd=LEAN)
         prep.driver_ok = rc1 == 0
@@ -201,15 +201,20 @@ def main():
             broken.append((hit, 'forbidden construct'))
     if not prep.driver_ok:
         broken.append(('driver', 'the model does not build: ' + prep.build_log[-400:]))
-    if 'error' in prep.extract:
-        broken.append(('extract', 'translator failed: ' + prep.extract['error'][-400:]))
+    # a generator of the translator that failed leaves its file stale: the theorems that rest on that file
+    # (import closure of their modules) are no longer tied to the source
+    for gname, why in sorted((prep.extract.get('failed') or {}).items()):
+        gm = 'Bashlex.Gen.' + gname
+        mods = set(props.THEOREM_MODULE[t] for t in P['theorems'])
+        if any(gm == x or gm in prep.closure.get(x, ()) for x in mods):
+            broken.append(('extract:' + gname, 'translator failed, %s.lean is stale: %s' % (gname, why[-400:])))
 
     # ---- correspondence + specification verdicts ----
     ctx = dict(tier=args.tier, seed=seed, prop=args.prop, findings=findings, prep=prep, replay=args.replay,
                proof_broken=bool(broken))
     result = dict(evaluations=0, distinct_nontrivial=0, samples=[], violations=[], finding_hits={}, corr_broken=[],
                   rule='', classes={}, extra={})
-    if prep.driver_ok and 'error' not in prep.extract:
+    if prep.driver_ok:
         try:
             mod = importlib.import_module(P['module'])
             result = mod.run(ctx)
